@@ -187,4 +187,43 @@ pub proof fn lemma_share_bounds(a: real, q: real, t: real)
 }
 
 
+
+// ---------- counting ----------
+pub open spec fn cnt<T>(s: Seq<T>, p: spec_fn(T) -> bool) -> nat
+    decreases s.len()
+{
+    if s.len() == 0 { 0 } else { cnt(s.drop_last(), p) + (if p(s.last()) { 1nat } else { 0nat }) }
+}
+pub proof fn cnt_push<T>(s: Seq<T>, x: T, p: spec_fn(T) -> bool)
+    ensures cnt(s.push(x), p) == cnt(s, p) + (if p(x) { 1nat } else { 0nat })
+{
+    assert(s.push(x).drop_last() =~= s);
+}
+pub proof fn cnt_le_len<T>(s: Seq<T>, p: spec_fn(T) -> bool)
+    ensures cnt(s, p) <= s.len()
+    decreases s.len()
+{
+    if s.len() > 0 { cnt_le_len(s.drop_last(), p); }
+}
+pub proof fn cnt_sum3<T>(s: Seq<T>, p: spec_fn(T) -> bool, q: spec_fn(T) -> bool, r: spec_fn(T) -> bool)
+    requires forall|x: T| #![trigger p(x)] !(p(x) && q(x)) && !(p(x) && r(x)) && !(q(x) && r(x))
+    ensures cnt(s, p) + cnt(s, q) + cnt(s, r) <= s.len()
+    decreases s.len()
+{
+    if s.len() > 0 { cnt_sum3(s.drop_last(), p, q, r); let x = s.last(); let _ = p(x); assert(!(p(x) && q(x)) && !(p(x) && r(x)) && !(q(x) && r(x))); }
+}
+pub proof fn cnt_remove<T>(s: Seq<T>, i: int, p: spec_fn(T) -> bool)
+    requires 0 <= i < s.len()
+    ensures cnt(s.remove(i), p) + (if p(s[i]) { 1nat } else { 0nat }) == cnt(s, p)
+    decreases s.len()
+{
+    if i == s.len() - 1 {
+        assert(s.remove(i) =~= s.drop_last());
+    } else {
+        assert(s.remove(i).drop_last() =~= s.drop_last().remove(i));
+        assert(s.remove(i).last() == s.last());
+        cnt_remove(s.drop_last(), i, p);
+        assert(s.drop_last()[i] == s[i]);
+    }
+}
 } // verus!
